@@ -78,13 +78,13 @@ ActFails(r, act) ==
        \cup W(r, "C11", "C11.chain",
               (Len(r.comps) > 1 /\ (F.obst \/ F.tele) /\ CountOf(r.comps, "move_obstacles") <= 1
                  /\ Cardinality(Obstacles(r.st.grid)) <= 3) =>
-                 \E ps \in Perms(Obstacles(r.st.grid)) :
+                 \E ps \in Perms(ObstacleSources(r.st, act.a)) :
                     LET so == StepInOrder(r.comps, r.st, act.a, ps)
                     IN sup \subseteq so /\ (act.full => sup = so))
        \* C17: the step is a step of the described environment (order-free for the obstacles)
        \cup W(r, "C17", "C17.step",
               IF F.obst /\ CountOf(r.comps, "move_obstacles") <= 1 /\ Cardinality(Obstacles(r.st.grid)) <= 3
-                THEN \E ps \in Perms(Obstacles(r.st.grid)) : sup \subseteq StepInOrder(r.comps, r.st, act.a, ps)
+                THEN \E ps \in Perms(ObstacleSources(r.st, act.a)) : sup \subseteq StepInOrder(r.comps, r.st, act.a, ps)
                 ELSE F.obst \/ sup \subseteq spec)
        \cup W(r, "DRIFT", "DRIFT.step", sup \subseteq spec /\ (act.full => sup = spec))
        \cup (IF r.rew = <<>> THEN {}
